@@ -344,7 +344,9 @@ theorem html_script_with_js_fragment : type_of% @Verif.Proofs.C09JsEmbed.html_sc
 /-- **K-C09-3 on the model of the CSS declaration writer**: the value tokens `<` `/` `style` `>` — none contains `</style` —
     are written `</style >`, an appropriate end tag of the enclosing HTML `style` element: the `SubKeeps` contract of
     `html_rawtext_end_stable_partial` is false for the CSS writer (for the JS-fragment printer it is a theorem:
-    `js_script_embed_keeps`).  Real code: `<style>a{b:< /style >}</style><p>x</p>` ↦ `<style>a{b:</style >}</style><p>x`. -/
+    `js_script_embed_keeps`).  That is why the host has to enforce the contract: since /repo 1557146 html.go re-reads
+    `<tag>` + result + `</tag>` and keeps the original payload unless it is read back as one text token (before:
+    `<style>a{b:< /style >}</style><p>x</p>` ↦ `<style>a{b:</style >}</style><p>x`, K-C09-3, now a regression input). -/
 theorem css_writer_creates_style_end_tag : type_of% @Verif.Proofs.C09Embed.css_writer_creates_style_end_tag :=
   @Verif.Proofs.C09Embed.css_writer_creates_style_end_tag
 
